@@ -144,3 +144,95 @@ theorem ordThen_eq_iff (a : Ordering) (b : Unit → Ordering) :
   cases a <;> simp [ordThen]
 
 end Hls
+
+namespace Hls
+
+/-- lexicographic product of two comparisons -/
+def cmpProd {α β} (c1 : α → α → Ordering) (c2 : β → β → Ordering) (x y : α × β) : Ordering :=
+  ordThen (c1 x.1 y.1) fun _ => c2 x.2 y.2
+
+theorem cmpProd_lawful {α β} {c1 : α → α → Ordering} {c2 : β → β → Ordering}
+    (h1 : LawfulCmp c1) (h2 : LawfulCmp c2) : LawfulCmp (cmpProd c1 c2) := by
+  refine ⟨?_, ?_, ?_⟩
+  · rintro ⟨a, b⟩ ⟨a', b'⟩
+    simp only [cmpProd, ordThen_eq_iff, h1.eq_iff, h2.eq_iff, Prod.mk.injEq]
+  · rintro ⟨a, b⟩ ⟨a', b'⟩
+    simp only [cmpProd]
+    have hs := h1.swap a a'
+    cases hc : c1 a a' with
+    | eq => rw [hc] at hs; simp [Ordering.swap] at hs; rw [← hs]; simp only [ordThen]; exact h2.swap b b'
+    | lt => rw [hc] at hs; simp [Ordering.swap] at hs; rw [← hs]; simp [ordThen, Ordering.swap]
+    | gt => rw [hc] at hs; simp [Ordering.swap] at hs; rw [← hs]; simp [ordThen, Ordering.swap]
+  · rintro ⟨a, b⟩ ⟨a', b'⟩ ⟨a'', b''⟩
+    simp only [cmpProd]
+    intro hx hy
+    cases hxy : c1 a a' with
+    | gt => rw [hxy] at hx; simp [ordThen] at hx
+    | lt =>
+      cases hyz : c1 a' a'' with
+      | gt => rw [hyz] at hy; simp [ordThen] at hy
+      | lt => rw [h1.trans_lt a a' a'' hxy hyz]; rfl
+      | eq => have := (h1.eq_iff a' a'').mp hyz; subst this; rw [hxy]; rfl
+    | eq =>
+      have := (h1.eq_iff a a').mp hxy; subst this
+      rw [hxy] at hx; simp only [ordThen] at hx
+      cases hyz : c1 a a'' with
+      | gt => rw [hyz] at hy; simp [ordThen] at hy
+      | lt => rfl
+      | eq => rw [hyz] at hy; simp only [ordThen] at hy ⊢; exact h2.trans_lt b b' b'' hx hy
+
+theorem ivCmp_lawful : LawfulCmp InitializationVector.cmp := by
+  have hn := cmpNat_lawful
+  refine ⟨?_, ?_, ?_⟩
+  · intro x y; cases x <;> cases y <;> simp [InitializationVector.cmp, hn.eq_iff]
+  · intro x y; cases x <;> cases y <;> simp [InitializationVector.cmp, Ordering.swap]
+    all_goals exact hn.swap _ _
+  · intro x y z; cases x <;> cases y <;> cases z <;> simp [InitializationVector.cmp]
+    all_goals exact hn.trans_lt _ _ _
+
+theorem keyFormatCmp_lawful : LawfulCmp KeyFormat.cmp := by
+  have hs := cmpStr_lawful
+  refine ⟨?_, ?_, ?_⟩
+  · intro x y
+    cases x <;> cases y <;> simp [KeyFormat.cmp, KeyFormat.rank, hs.eq_iff, cmpNat]
+  · intro x y
+    cases x <;> cases y <;> simp [KeyFormat.cmp, KeyFormat.rank, cmpNat, Ordering.swap]
+    exact hs.swap _ _
+  · intro x y z
+    cases x <;> cases y <;> cases z <;> simp [KeyFormat.cmp, KeyFormat.rank, cmpNat]
+    exact hs.trans_lt _ _ _
+
+theorem kfvCmp_lawful : LawfulCmp KeyFormatVersions.cmp := by
+  have hl := cmpList_lawful cmpNat_lawful
+  refine ⟨?_, ?_, ?_⟩
+  · intro x y; cases x; cases y; simp [KeyFormatVersions.cmp, hl.eq_iff]
+  · intro x y; exact hl.swap _ _
+  · intro x y z; exact hl.trans_lt _ _ _
+
+/-- the fields of a key in declaration order -/
+def DecryptionKey.tuple (k : DecryptionKey) :
+    Nat × Str × InitializationVector × Option KeyFormat × Option KeyFormatVersions :=
+  (k.method.idx, k.uri, k.iv, k.format, k.versions)
+
+theorem DecryptionKey.tuple_inj (a b : DecryptionKey) (h : a.tuple = b.tuple) : a = b := by
+  cases a; cases b
+  simp only [DecryptionKey.tuple, Prod.mk.injEq] at h
+  obtain ⟨h1, h2, h3, h4, h5⟩ := h
+  have : ∀ m m' : EncryptionMethod, m.idx = m'.idx → m = m' := by
+    intro m m'; cases m <;> cases m' <;> simp [EncryptionMethod.idx]
+  simp [this _ _ h1, h2, h3, h4, h5]
+
+/-- `derive(Ord)` on `DecryptionKey` is a lawful total order -/
+theorem decryptionKeyCmp_lawful : LawfulCmp DecryptionKey.cmp := by
+  have hp := cmpProd_lawful cmpNat_lawful (cmpProd_lawful cmpStr_lawful (cmpProd_lawful ivCmp_lawful
+    (cmpProd_lawful (cmpOpt_lawful keyFormatCmp_lawful) (cmpOpt_lawful kfvCmp_lawful))))
+  have := cmpKey_lawful hp DecryptionKey.tuple DecryptionKey.tuple_inj
+  have he : DecryptionKey.cmp = fun x y => cmpProd cmpNat (cmpProd cmpStr (cmpProd InitializationVector.cmp
+      (cmpProd (cmpOpt KeyFormat.cmp) (cmpOpt KeyFormatVersions.cmp)))) x.tuple y.tuple := by
+    funext x y; rfl
+  rw [he]; exact this
+
+/-- the order of the keys-in-effect set (`Option<DecryptionKey>`, `None` first) is lawful -/
+theorem extXKeyCmp_lawful : LawfulCmp ExtXKey.cmp := cmpOpt_lawful decryptionKeyCmp_lawful
+
+end Hls
